@@ -131,7 +131,7 @@ func (p *Prog) Reachable(roots []*ssa.Function, o ReachOpts) map[*ssa.Function]*
 		var next []*ssa.Function
 		if n := cg.Nodes[f]; n != nil {
 			for _, e := range n.Out {
-				next = append(next, e.Callee.Func)
+				next = append(next, Unwrap2(e.Callee.Func))
 			}
 		}
 		if o.FollowClosures {
